@@ -421,6 +421,14 @@ class Scan:
                         stmt_temps.append(g)
                 i = end2
                 continue
+            # node-ledger read-modify-write steps (fire at their closing paren, i.e. after their arguments)
+            m = re.compile(r"(claimable_balances|validate_payments|apply_payments)\s*\(").match(body, i)
+            if m and i > 0 and body[i - 1] == ".":
+                close = match_close(body, m.end() - 1, "(", ")")
+                pending.append((close, ("mark", m.group(1))))
+                pending.sort(key=lambda p: -p[0])
+                i = m.end()
+                continue
             # persister call = store leaf (fires at its closing paren)
             m = re.compile(r"persister\s*\.\s*(\w+)\s*\(").match(body, i)
             if m and (i == 0 or not (body[i - 1].isalnum() or body[i - 1] == "_")):
@@ -455,7 +463,11 @@ class Scan:
                     pm = re.search(r"(\w+(?:\(\))?)\s*\.\s*$", pre)
                     if pm:
                         recv = pm.group(1)
-                if name not in KEYWORDS:
+                if name in ("claimable_balances", "validate_payments", "apply_payments"):
+                    close = match_close(body, m.end() - 1, "(", ")")
+                    pending.append((close, ("mark", name)))
+                    pending.sort(key=lambda p: -p[0])
+                elif name not in KEYWORDS:
                     tgt = self.resolve(f, recv, name)
                     if tgt and tgt not in GETTERS:
                         close = match_close(body, m.end() - 1, "(", ")")
@@ -539,6 +551,8 @@ class Scan:
                             break
                     if primary:
                         path.append(("rel", cls))
+            elif k == "mark":
+                pass
             elif k == "leaf":
                 for h in held:
                     edges.add((h, it[1]))
@@ -570,6 +584,44 @@ class Scan:
                 path.append(("rel", cls))
 
 
+LEDGER_MARKS = ("claimable_balances", "validate_payments", "apply_payments")
+
+
+def ledger_paths(sc):
+    """For every Channel method that performs the node-ledger read-modify-write (claimable_balances /
+    validate_payments ... apply_payments on the node state): the node_state acquire/release events of
+    the function body interleaved with one `upd` per ledger step.  The theorem side requires each of
+    these lists to be strict two-phase (one node_state critical section spanning validate..apply)."""
+    res = {}
+    for name, bodies in sorted(sc.fns["channel"].items()):
+        for k, (body, _, _) in enumerate(bodies):
+            if not re.search(r"\.\s*(validate_payments|apply_payments)\s*\(", body):
+                continue
+            items = sc.walk("channel", body)
+            ev, guards = [], {}
+            for it in items:
+                if it[0] == "acq" and it[1] == "node_state":
+                    guards[it[2]] = True
+                    ev.append(("acq", None))
+                elif it[0] == "rel" and it[1] in guards:
+                    del guards[it[1]]
+                    ev.append(("rel", None))
+                elif it[0] == "mark":
+                    if not guards:
+                        raise ExtractError("ledger step %s outside a node_state section in %s" % (it[1], name))
+                    ev.append(("upd", it[1]))
+            for g in list(guards):
+                ev.append(("rel", None))
+            res[name if k == 0 else "%s_%d" % (name, k)] = ev
+    if not any(any(e == ("upd", "apply_payments") for e in v) for v in res.values()):
+        raise ExtractError("no Channel method applies payments to the node ledger any more")
+    for req in ("sign_counterparty_commitment_tx_phase2", "validate_holder_commitment_tx_phase2",
+                "revoke_previous_holder_commitment"):
+        if req not in res:
+            raise ExtractError("ledger read-modify-write disappeared from Channel::" + req)
+    return res
+
+
 def lean_class(c):
     return "." + {"node_state": "nodeState", "channels": "channels", "slot": "slot", "tracker": "tracker",
                   "monitor": "monitor", "monitor_decode": "monitorDecode",
@@ -596,6 +648,7 @@ def extract(repo):
                                % (kind, table[kind]["slot_sections"]))
     kinds = list(ENTRIES)
     L = ["import VlsModel.Model.Locks",
+         "import VlsModel.Model.Locks2pl",
          "/- Lock-acquisition table of the request entry points (held-while-acquiring edges and one",
          "   canonical event path per request kind), extracted from the current sources. -/",
          "namespace VlsModel.Gen.LockTable",
@@ -624,14 +677,26 @@ def extract(repo):
         L.append("  | .%s => [%s]" % (k, ps))
     L += ["", "/-- request kinds that must hold their channel slot in exactly one critical section -/",
           "def singleSection : List Kind := [%s]" % ", ".join(".%s" % k for k in SINGLE_SECTION),
-          "", "end VlsModel.Gen.LockTable", ""]
+          "",
+          "/-- Channel methods that read-modify-write the node ledger: their node_state events with one",
+          "`upd` per ledger step (claimable_balances / validate_payments / apply_payments) -/",
+          "def ledgerPaths : List (String × List (VlsModel.Locks2pl.DEv Cls Unit)) := ["]
+    lp = ledger_paths(sc)
+    rows = []
+    for name, ev in lp.items():
+        es = ", ".join({"acq": ".acq .nodeState", "rel": ".rel .nodeState", "upd": ".upd .nodeState id"}[a] for a, _ in ev)
+        rows.append('  ("%s", [%s])' % (name, es))
+    L.append(",\n".join(rows) + "]")
+    L += ["", "end VlsModel.Gen.LockTable", ""]
     facts = {k: {"edges": ["%s->%s" % e for e in table[k]["edges"]],
                  "path": " ".join(("+" if a == "acq" else "-") + c for a, c in table[k]["path"])} for k in kinds}
+    facts["_ledger_sections"] = {n: " ".join(("+ns" if a == "acq" else "-ns" if a == "rel" else b) for a, b in ev) for n, ev in lp.items()}
     facts["_scanned_functions"] = sorted(sc.scanned)
     facts["_recursion_cuts"] = sorted(sc.recursion_cuts)
     return {"LockTable.lean": "\n".join(L)}, {"C20": {"facts": {"lock_table": facts}, "obligations": [
         "Gen.LockTable: the sub-table of C20_partial is rank-increasing (theorem C20_subtable_acyclic, decide +kernel)",
-        "Gen.LockTable: the full table contains the cycles of finding F11 (theorem C20_full_false)"]}}
+        "Gen.LockTable: the full table contains the cycles of finding F11 (theorem C20_full_false)",
+        "Gen.LockTable: every ledger read-modify-write of a Channel method sits in one node_state section (theorem C20_ledger_sections_strict2pl)"]}}
 
 
 if __name__ == "__main__":
